@@ -792,7 +792,7 @@ Definition step (w : world) (o : op) : res (world * out) :=
        there was no buffer) *)
     x <- get w h ;;
     let app := fun (s : option text) =>
-      match t with [] => (s, 0) | _ => (Some (text_of s ++ t), 1 - optb s) end in
+      match t with [] => (s, 0) | _ => (Some (text_of s ++ t), match s with Some _ => 0 | None => 1 end) end in
     match x with
     | OStr s => let (s', d) := app s in Ok (mkWorld (put h (OStr s') (held w)) (next w) (naddr w) (ledger w + d), RBool true)
     | OUstr s => let (s', d) := app s in Ok (mkWorld (put h (OUstr s') (held w)) (next w) (naddr w) (ledger w + d), RBool true)
@@ -850,10 +850,12 @@ Definition step (w : world) (o : op) : res (world * out) :=
 
   (* ---- url ---- *)
   | UrlSet u f h =>
-    if (7 <=? f)%nat then Fault Abort else
+    (* f names one of the seven component members *)
     setter w u h (fun po x => match po, x with
-                              | OUrl s cs, None => Ok (OUrl s (Buf.upd cs f None), nth_comp cs f)
-                              | OUrl s cs, Some (OStr _) => Ok (OUrl s (Buf.upd cs f x), nth_comp cs f)
+                              | OUrl s cs, None =>
+                                if (f <? length cs)%nat then Ok (OUrl s (Buf.upd cs f None), nth_comp cs f) else Fault Abort
+                              | OUrl s cs, Some (OStr _) =>
+                                if (f <? length cs)%nat then Ok (OUrl s (Buf.upd cs f x), nth_comp cs f) else Fault Abort
                               | _, _ => Fault Abort end)
   | UrlUnparse u =>
     x <- get w u ;;
